@@ -1,4 +1,5 @@
 //! Generators, reference models and oracles that do not depend on the repository under test.
+pub mod faults;
 pub mod layout;
 pub mod lsp;
 pub mod prog;
